@@ -27,6 +27,7 @@ func main() {
 		debugFn  = flag.String("debug", "", "pkg:Func — evaluate symbolically and dump returns and heap (development aid)")
 	)
 	decodeDbg := flag.Int("decode", -1, "format code: evaluate the hsms item decoder on an item of that format, width and count given as arguments (development aid)")
+	parseDbg := flag.String("parse", "", "item text: lex it and evaluate (*parser).parseDataItem on the tokens (development aid)")
 	lexDbg := flag.String("lex", "", "state function name: evaluate it on the input given as first argument (development aid)")
 	flag.Parse()
 	if pf := os.Getenv("SC_PROF"); pf != "" {
@@ -39,6 +40,21 @@ func main() {
 				f.Close()
 			}()
 		}
+	}
+	if *parseDbg != "" {
+		prog, err := Load(*repo, nil)
+		if err != nil {
+			fmt.Println(err)
+			os.Exit(2)
+		}
+		toks, ok := lexAll(prog, "lexMessageText", *parseDbg, 300)
+		fmt.Printf("lexed ok=%v %d tokens\n", ok, len(toks))
+		obs, diags, ok := parseRun(prog, prog.Func("sml", "(*parser).parseDataItem"), toks, 4)
+		fmt.Printf("ok=%v diags=%q\n", ok, diags)
+		for _, o := range obs {
+			fmt.Printf("  %s %v\n", o.factory, o.elems)
+		}
+		return
 	}
 	if *decodeDbg >= 0 {
 		prog, err := Load(*repo, nil)
@@ -62,7 +78,7 @@ func main() {
 		pos, _ := strconv.Atoi(flag.Arg(1))
 		if strings.HasPrefix(*lexDbg, "all:") {
 			toks, ok := lexAll(prog, strings.TrimPrefix(*lexDbg, "all:"), flag.Arg(0), 200)
-			fmt.Printf("ok=%v toks=%q\n", ok, toks)
+			fmt.Printf("ok=%v toks=%v\n", ok, toks)
 			return
 		}
 		var res lexResult
